@@ -1898,6 +1898,12 @@ func (self *LockDB) doExpried(lock *Lock, forcedExpried bool, removeWaited bool)
 				return
 			}
 		}
+
+		if lock.command.ExpriedFlag&protocol.EXPRIED_FLAG_MILLISECOND_TIME == 0 && lock.expriedTime > self.currentTime {
+			self.AddExpried(lock)
+			lockManager.glock.Unlock()
+			return
+		}
 	}
 
 	lockLocked := lock.locked
